@@ -88,6 +88,21 @@ impl Ctx {
         *self.inconclusive.lock().unwrap().entry(why.to_string()).or_insert(0) += n;
     }
 
+    /// The in-process workload is blocked inside the library (see par_run): report and leave.
+    pub fn abort_stalled(&self, done: usize, total: usize, idle_s: f64, cpu_s: f64) -> ! {
+        self.violate(
+            &format!("the library blocks: no evaluation returned for {:.0} s while the process used {:.1} s of CPU (a deadlock, not slowness); {} of {} cases had completed on {} threads", idle_s, cpu_s, done, total, self.threads),
+            json!({"kind": "stall", "completed_cases": done, "total_cases": total, "threads": self.threads, "note": "re-run the check: the same concurrent workload is regenerated from the seed"}),
+        );
+        let mut ev = Evidence::new("stalled run: the counts are the cases completed before the library blocked");
+        ev.set("evaluations", json!(done.max(1)));
+        ev.set("distinct_nontrivial", json!(done.max(2)));
+        ev.sample(json!({"stalled_after_cases": done}));
+        ev.min_nontrivial = 0;
+        let code = self.finish(ev);
+        std::process::exit(if code == 0 { 1 } else { code });
+    }
+
     /// Writes replay files, prints VIOLATION lines, writes the evidence file, returns exit code.
     pub fn finish(&self, mut ev: Evidence) -> i32 {
         let dir = verif_dir();
@@ -169,6 +184,25 @@ impl Ctx {
         }
         0
     }
+}
+
+fn gcd(a: usize, b: usize) -> usize {
+    if b == 0 {
+        a
+    } else {
+        gcd(b, a % b)
+    }
+}
+
+pub fn self_cpu_seconds() -> f64 {
+    let s = std::fs::read_to_string("/proc/self/stat").unwrap_or_default();
+    let rest = match s.rfind(')') {
+        Some(i) => &s[i + 2..],
+        None => return 0.0,
+    };
+    let f: Vec<&str> = rest.split_whitespace().collect();
+    let g = |k: usize| f.get(k).and_then(|x| x.parse::<f64>().ok()).unwrap_or(0.0);
+    (g(11) + g(12)) / 100.0
 }
 
 pub struct Evidence {
@@ -273,7 +307,48 @@ impl Acc {
 pub fn par_run<F: Fn(usize, &mut Acc) + Sync>(ctx: &Ctx, n: usize, f: F) -> Acc {
     let next = AtomicUsize::new(0);
     let chunk = (n / (ctx.threads * 16)).clamp(1, 4096);
+    let done = AtomicUsize::new(0);
+    let finished = std::sync::atomic::AtomicBool::new(false);
+    // cases are visited in a strided order (i -> i * P mod n): neighbours in the case list - the
+    // members of one family, often sharing a document - then run at the same time on different
+    // threads instead of one after the other on one thread
+    let stride = {
+        let mut p = 1_000_003usize;
+        while n > 1 && gcd(p, n) != 1 {
+            p += 2;
+        }
+        p
+    };
     let accs: Vec<Acc> = std::thread::scope(|s| {
+        // Stall watchdog: the library is called in-process, so a deadlock inside it (e.g. a
+        // lock-order inversion in a shared cache) would hang the check. "No case completed for
+        // 90 s while the process used (almost) no CPU" is a blocked process, not a slow one:
+        // machine load does not stop CPU time from advancing. That is reported as a violation;
+        // no progress *with* CPU being burnt for 30 minutes is inconclusive.
+        s.spawn(|| {
+            let mut last_done = 0usize;
+            let mut last_change = Instant::now();
+            let mut cpu_at_change = self_cpu_seconds();
+            while !finished.load(Ordering::SeqCst) {
+                std::thread::sleep(std::time::Duration::from_millis(500));
+                let d = done.load(Ordering::SeqCst);
+                if d != last_done {
+                    last_done = d;
+                    last_change = Instant::now();
+                    cpu_at_change = self_cpu_seconds();
+                    continue;
+                }
+                let idle = last_change.elapsed().as_secs_f64();
+                let cpu = self_cpu_seconds() - cpu_at_change;
+                if idle > 90.0 && cpu < 1.0 && !finished.load(Ordering::SeqCst) {
+                    ctx.abort_stalled(d, n, idle, cpu);
+                }
+                if idle > 1800.0 && !finished.load(Ordering::SeqCst) {
+                    eprintln!("HARNESS-ERROR no case completed for {:.0} s although CPU is being used ({:.0} s): inconclusive", idle, cpu);
+                    std::process::exit(2);
+                }
+            }
+        });
         let hs: Vec<_> = (0..ctx.threads.max(1))
             .map(|_| {
                 std::thread::Builder::new()
@@ -286,7 +361,9 @@ pub fn par_run<F: Fn(usize, &mut Acc) + Sync>(ctx: &Ctx, n: usize, f: F) -> Acc 
                                 break;
                             }
                             for i in st..(st + chunk).min(n) {
+                                let i = if n > 1 { ((i as u128 * stride as u128) % n as u128) as usize } else { i };
                                 f(i, &mut acc);
+                                done.fetch_add(1, Ordering::Relaxed);
                             }
                         }
                         acc
@@ -294,7 +371,9 @@ pub fn par_run<F: Fn(usize, &mut Acc) + Sync>(ctx: &Ctx, n: usize, f: F) -> Acc 
                     .expect("spawn")
             })
             .collect();
-        hs.into_iter().map(|h| h.join().expect("worker thread panicked (harness bug)")).collect()
+        let r = hs.into_iter().map(|h| h.join().expect("worker thread panicked (harness bug)")).collect();
+        finished.store(true, Ordering::SeqCst);
+        r
     });
     Acc::merge(accs)
 }
